@@ -317,6 +317,8 @@ def df_fillna(df, method = None, axis = 0, limit = None):
 
 @loop(dict, list, tuple)
 def _nona(df, value = np.nan, edge = None):
+    if is_pd(df) and len(df) == 0: ## nothing to remove (and the row mask of an empty frame is not boolean: using it as a key would drop the columns)
+        return df
     if np.isnan(value):
         mask = np.isnan(df)
     elif np.isinf(value):
